@@ -35,3 +35,21 @@ package otelstorage
 //@ ghost func anyKey(i int) string
 //@ lemma[C20.idempotent] KeyToLabel(KeyToLabel(anyKey(0))) == KeyToLabel(anyKey(0))
 //@ lemma[C20.result-is-a-valid-label-or-empty] validLabel(KeyToLabel(anyKey(0)))
+
+//@ scope id.go
+
+//@ func (TraceID).IsEmpty
+//@   modifies nothing
+//@ func (SpanID).IsEmpty
+//@   modifies nothing
+//@ func (TraceID).Hex
+//@   modifies nothing
+//@   loop 0 modifies sb.*
+//@ func (SpanID).Hex
+//@   modifies nothing
+//@   loop 0 modifies sb.*
+
+//@ scope attrs.go
+
+//@ func (Attrs).AsMap
+//@   inline
